@@ -77,7 +77,7 @@ Inductive lstate :=
 | LNum (ph : nphase) (racc : bytes)
 | LSym (p : psym)
 | LBrOpen (n : nat)                              (* "[" "="^n, n >= 1 *)
-| LStr (q : N) (esc : bool) (racc : bytes)       (* quoted string delimited by q *)
+| LStr (dq : bool) (esc : bool) (racc : bytes)   (* quoted string delimited by [quote_of dq] *)
 | LLong (n : nat) (cl : option nat) (racc : bytes)  (* long string level n; cl = Some k: saw "]" "="^k *)
 | LInterp (esc : bool) (racc : bytes)
 | LDash2 (racc : bytes)                          (* just after "--" *)
@@ -85,6 +85,8 @@ Inductive lstate :=
 | LLine (racc : bytes)                           (* line comment *)
 | LLongC (n : nat) (cl : option nat) (racc : bytes)  (* long comment *)
 | LErr.
+
+Definition quote_of (dq : bool) : N := if dq then 34 else 39.
 
 Definition immediate_sym (c : N) : bool :=
   (c =? 40) || (c =? 41) || (c =? 93) || (c =? 59) || (c =? 44)
@@ -106,7 +108,8 @@ Definition start (stk : list nat) (c : N) : list token * cfg :=
   if is_ws c then ([], (stk, LStart))
   else if is_ident_start c then ([], (stk, LName [c]))
   else if is_digit c then ([], (stk, LNum NHead [c]))
-  else if (c =? 34) || (c =? 39) then ([], (stk, LStr c false [c]))
+  else if c =? 34 then ([], (stk, LStr true false [c]))
+  else if c =? 39 then ([], (stk, LStr false false [c]))
   else if c =? 96 then ([], (stk, LInterp false [c]))
   else if c =? 123 then
     ([(TSym, [c])], (match stk with d :: r => S d :: r | [] => [] end, LStart))
@@ -212,7 +215,7 @@ Definition step_st (st : lstate) (c : N) : option (list token * lstate) :=
   | LStr q esc racc =>
     Some (if esc then ([], LStr q false (c :: racc))
           else if c =? 92 then ([], LStr q true (c :: racc))
-          else if c =? q then ([(TString, rev (c :: racc))], LStart)
+          else if c =? quote_of q then ([(TString, rev (c :: racc))], LStart)
           else if (c =? 10) || (c =? 13) then ([], LErr)
           else ([], LStr q false (c :: racc)))
   | LLong n cl racc =>
